@@ -1396,6 +1396,15 @@ class VarSub(Vars):
 
         return self.to_affine().sum(axis)
 
+    def get(self):
+        """
+        Return the optimal solution of the selected decision variables.
+        """
+
+        var_sol = np.array(super().get()).flatten()
+
+        return var_sol[self.indices]
+
     def to_affine(self):
 
         select = list(self.indices.reshape((self.indices.size,)))
